@@ -194,6 +194,40 @@ thread_local! {
     pub static RELEVEL_PCT: std::cell::Cell<u32> = std::cell::Cell::new(0);
 }
 
+/// Projection of the match finder's state (verif_lz_state hook) against the input of the stream:
+/// the record DeflateLZRules!StateRules is evaluated on.  `taken` = input bytes consumed so far.
+pub fn lz_proj(c: &CompressorOxide, input: &[u8], taken: usize, flush: &str, quiet: bool) -> Value {
+    const DICT: usize = 32768;
+    const MAXM: usize = 258;
+    let (lapos, lasize, dsize, saved_len, d) = c.verif_lz_state();
+    let mut hist_bad = 0usize;
+    for k in 1..=dsize.min(DICT) {
+        if k > lapos || lapos - k >= input.len() || d[(lapos - k) & (DICT - 1)] != input[lapos - k] {
+            hist_bad = k;
+            break;
+        }
+    }
+    let mut look_bad = 0usize;
+    for i in 0..lasize.min(DICT) {
+        if lapos + i >= input.len() || d[(lapos + i) & (DICT - 1)] != input[lapos + i] {
+            look_bad = i + 1;
+            break;
+        }
+    }
+    let mut mirror_bad = 0usize;
+    for j in 0..MAXM - 1 {
+        if d[DICT + j] != d[j] {
+            mirror_bad = j + 1;
+            break;
+        }
+    }
+    let f = c.flags();
+    let fast = f & 0xFFF == 1 && f & 0x4000 != 0 && f & (0x20000 | 0x80000 | 0x10000) == 0;
+    json!({"lapos": lapos, "lasize": lasize, "dsize": dsize, "taken": taken, "hist_bad": hist_bad,
+           "look_bad": look_bad, "mirror_bad": mirror_bad, "saved_len": saved_len,
+           "idle": quiet, "flush": flush, "lamax": if fast { 4096 } else { MAXM }})
+}
+
 /// Drive the low-level compressor along a schedule; log every call; then log the whole
 /// output as a stream to be parsed by the acceptor.
 pub fn stream_comp_case(
@@ -302,6 +336,12 @@ pub fn stream_comp_case(
         if !sch.callback {
             e["out_len"] = json!(olen);
         }
+        if used <= chunk.len() && !releveled {
+            let spare0 = sch.callback || w < olen;
+            let quiet = prev_left_space && pos + used == offered_end && spare0
+                && (st == TDEFLStatus::Okay || st == TDEFLStatus::Done);
+            e["lz"] = lz_proj(&c, input, pos + used, FLUSHES[flush_i].0, quiet);
+        }
         tr.ev(e);
         if used > chunk.len() || (!sch.callback && w > olen) {
             return true; // contract already violated; the trace spec reports it
@@ -398,10 +438,14 @@ pub fn deflate_case(
             }
             Ok(res) => {
                 let untouched = buf[res.bytes_written.min(out_len)..].iter().all(|&b| b == 0x5A);
-                tr.ev(json!({"ev": "defl", "in_len": chunk.len(), "out_len": out_len, "flush": mzflush_name(flush),
+                let mut e = json!({"ev": "defl", "in_len": chunk.len(), "out_len": out_len, "flush": mzflush_name(flush),
                     "status": mz_result(&res.status), "consumed": res.bytes_consumed, "written": res.bytes_written,
                     "tail_untouched": untouched,
-                    "adler": pair_json(adler_pair_of_u32(c.adler32()))}));
+                    "adler": pair_json(adler_pair_of_u32(c.adler32()))});
+                if res.bytes_consumed <= chunk.len() {
+                    e["lz"] = lz_proj(&c, input, *pos + res.bytes_consumed, mzflush_name(flush), false);
+                }
+                tr.ev(e);
                 if res.bytes_consumed <= chunk.len() && res.bytes_written <= out_len {
                     *pos += res.bytes_consumed;
                     out_all.extend_from_slice(&buf[..res.bytes_written]);
